@@ -3,7 +3,7 @@
    pyxel/util/misc.py (get_dtype) and from the three detector-level converter models on every run. *)
 From Coq Require Import ZArith List Bool Reals Lia.
 From Flocq Require Import Core BinarySingleNaN.
-From PyxelV Require Import Lib.B64 Model.Adc Proofs.AdcChain Proofs.AdcFloat Proofs.AdcRange Proofs.AdcSimple Proofs.AdcSar Proofs.AdcSar0 Proofs.AdcSarp Proofs.AdcFrame Proofs.AdcWrap Proofs.AdcWitness.
+From PyxelV Require Import Lib.B64 Model.Adc Model.AdcHist Proofs.AdcChain Proofs.AdcFloat Proofs.AdcRange Proofs.AdcSimple Proofs.AdcSar Proofs.AdcSar0 Proofs.AdcSarp Proofs.AdcFrame Proofs.AdcWrap Proofs.AdcHist Proofs.AdcWitness.
 From PyxelGen Require Import Gen_C16.
 Import ListNotations.
 Open Scope Z_scope.
@@ -262,6 +262,74 @@ Proof.
 Qed.
 Print Assumptions C16_simple_adc_detector.
 
+(* ================================================================ histories on ONE detector object
+   The detector lives through any sequence of operations (Model/AdcHist.v): the setters of
+   detector.characteristics (adc_bit_resolution refuses values outside 4..64), a new signal frame, emptying
+   the Image bucket, and calls of the three models in any order.  The state carries the image the detector
+   currently holds.  All statements: EVERY initial state (whatever image an earlier call left behind) and
+   EVERY history, no bound on its length, refused operations included. *)
+
+(* the body of each model reads only the detector's settings, signal and geometry, and writes only the image
+   (regenerated from the source): nothing can be carried from one call to the next through the detector *)
+Theorem C16_wrappers_touch :
+  touch_ok src_simple_touch = true /\ touch_ok src_sar_touch = true /\ touch_ok src_sar0_touch = true.
+Proof. vm_compute. repeat split; reflexivity. Qed.
+Print Assumptions C16_wrappers_touch.
+
+(* the model treats every converter as a FUNCTION of its arguments.  Regenerated from the source: the wrappers, the
+   converter functions, get_dtype and the module-level helpers they call read no module-level name that could
+   carry something from one call to the next (only locals, builtins, imported names, called module functions and
+   module constants bound once to an immutable literal), declare no global, keep no function attribute and
+   have no mutable default argument *)
+Theorem C16_converters_stateless : src_module_state = [].
+Proof. reflexivity. Qed.
+Print Assumptions C16_converters_stateless.
+
+(* calls and emptying the image never change the converter settings; a setter changes only its own attribute *)
+Theorem C16_history_settings :
+  forall (ops : list adc_op) (s : hstate),
+  h_det (hrun src_dtype_chain src_simple_wiring src_sar_wiring src_sar0_wiring s ops)
+    = fold_left apply_set ops (h_det s).
+Proof. intros ops s. apply hrun_settings. Qed.
+Print Assumptions C16_history_settings.
+
+(* every allowed call, from ANY state, raises nothing and stores an image that is defined everywhere and
+   satisfies the specification for the settings in force at that call *)
+Theorem C16_history_call_meets_spec :
+  forall (s : hstate) (o : adc_op), call_allowed (h_det s) o = true ->
+  exists w cs,
+    hstep src_dtype_chain src_simple_wiring src_sar_wiring src_sar0_wiring s o
+      = ({| h_det := h_det s; h_image := Some (w, map Some cs) |}, false) /\
+    call_spec (h_det s) o w cs = true.
+Proof.
+  destruct C16_wrappers_wired as [A [B C]].
+  apply call_meets_spec; [vm_compute; reflexivity|exact A|exact B|exact C].
+Qed.
+Print Assumptions C16_history_call_meets_spec.
+
+(* the image a call stores does not depend on what the Image bucket held before the call *)
+Theorem C16_history_previous_image_irrelevant :
+  forall (d : adc_detector) (im1 im2 : image_m) (o : adc_op), call_allowed d o = true ->
+  h_image (fst (hstep src_dtype_chain src_simple_wiring src_sar_wiring src_sar0_wiring {| h_det := d; h_image := im1 |} o))
+  = h_image (fst (hstep src_dtype_chain src_simple_wiring src_sar_wiring src_sar0_wiring {| h_det := d; h_image := im2 |} o)).
+Proof.
+  destruct C16_wrappers_wired as [A [B C]].
+  apply call_ignores_previous_image; [vm_compute; reflexivity|exact A|exact B|exact C].
+Qed.
+Print Assumptions C16_history_previous_image_irrelevant.
+
+(* whole histories: the model's own trace passes the judge that the implementation's trace is given to
+   (hist_judge: every allowed call is held to the specification of the settings the setters put in force) *)
+Theorem C16_history_meets_spec :
+  forall (ops : list adc_op) (s : hstate),
+  hist_judge (h_det s) ops
+    (model_obs (htrace src_dtype_chain src_simple_wiring src_sar_wiring src_sar0_wiring s ops)) 0 = [].
+Proof.
+  destruct C16_wrappers_wired as [A [B C]].
+  intros ops s. apply hist_model_ok; [vm_compute; reflexivity|exact A|exact B|exact C].
+Qed.
+Print Assumptions C16_history_meets_spec.
+
 (* ================================================================ non-vacuity *)
 
 (* the hypotheses are met by an ordinary setting, and the conclusions are not trivial *)
@@ -303,3 +371,18 @@ Proof. vm_compute. repeat split; reflexivity. Qed.
 Example C16_sar_full_scale_high_bits :
   sar_code 64 54 (bofZ 1) (bofZ 2) = Some (2 ^ 54 - 1) /\ sar_code 64 64 (bofZ 1) (mk 3 (-2)) = Some (2 ^ 63 + 2 ^ 62).
 Proof. split; [exact sar_full_scale_54|exact sar_top_bit_64]. Qed.
+
+(* a history that crosses an output-type band with the image left in place: 8 bits (uint8 image), then 12 bits.
+   The second image is stored as 16-bit codes up to 4095; the judge accepts the model's trace and rejects a
+   trace whose second image is still 8 bits wide (codes modulo 256) *)
+Example C16_history_example :
+  let d := {| d_bits := 8; d_lo := pzero; d_hi := bofZ 6; d_signal := [pzero; bofZ 3; bofZ 6]; d_rows := 1; d_cols := 3 |} in
+  let ops := [OSimple None; OSetBits 12; OSimple None] in
+  call_allowed d (OSimple None) = true /\ call_allowed (with_bits d 12) (OSimple None) = true /\
+  htrace src_dtype_chain src_simple_wiring src_sar_wiring src_sar0_wiring {| h_det := d; h_image := None |} ops
+    = [(false, Some (8, [Some 0; Some 127; Some 255])); (false, Some (8, [Some 0; Some 127; Some 255]));
+       (false, Some (16, [Some 0; Some 2047; Some 4095]))] /\
+  hist_judge d ops [ {| o_raised := false; o_image := Some (8, [0; 127; 255]); o_sig_ok := true |};
+                     {| o_raised := false; o_image := Some (8, [0; 127; 255]); o_sig_ok := true |};
+                     {| o_raised := false; o_image := Some (8, [0; 255; 255]); o_sig_ok := true |} ] 0 = [2].
+Proof. vm_compute. repeat split; reflexivity. Qed.
